@@ -1,5 +1,6 @@
 import Driver.LruDrv
 import Driver.BlobDrv
+import Driver.DiskDrv
 /-!
 Line-protocol driver over the executable models (DESIGN.md Appendix B).
 One operation per input line, one result line per operation.  Core Lean only, so that it links
@@ -9,6 +10,7 @@ open Driver
 
 structure DState where
   lru : BR.Lru.Lru := BR.Lru.init 0 0
+  disk : BR.Disk.Disk := BR.Disk.init { mode := .zstd, maxBlobSize := 0, maxProxyBlobSize := 0, hasProxy := false } 0 0
 
 def dispatch (s : DState) (line : String) : DState × String :=
   let toks := (line.trimAscii.toString.splitOn " ").filter (· ≠ "")
@@ -19,6 +21,10 @@ def dispatch (s : DState) (line : String) : DState × String :=
     else if t.startsWith "lru." then
       match lruStep s.lru toks with
       | some (l, out) => ({ s with lru := l }, out)
+      | none => (s, "bad-op")
+    else if t.startsWith "disk." then
+      match diskStep s.disk toks with
+      | some (d, out) => ({ s with disk := d }, out)
       | none => (s, "bad-op")
     else if t.startsWith "blob." then
       match blobStep toks with
